@@ -467,6 +467,9 @@ func runC17(r *Runner) string {
 		wenc := witnessBytes(w)
 		c.hostile("wit.dec", nil, wenc, []int{0, 1}, 20)
 		c.hostile("varint.dec", nil, varint.VarInt(rng.Uint64()>>uint(rng.Intn(64))).Bytes(), []int{0}, 9)
+		for _, e := range [][]byte{{0xfd, 1}, {0xfe, 1, 2, 3}, {0xff, 1, 2, 3, 4, 5, 6, 7}, {0xfd}, {0xfe}, {0xff}, {0xfd, 1, 2}, {0xfe, 1, 2, 3, 4}} {
+			c.do("varint.dec", []string{hx(e)}, "varint.dec:cut-by-one", len(e), true)
+		}
 
 		data := r.bytesN([]int{0, 1, 75, 76, 255, 256, 300}[rng.Intn(7)])
 		c.hostile("read.data", nil, script.PushData(data), nil, 20)
